@@ -29,6 +29,7 @@ import (
 
 	"github.com/drand/drand/v2/common"
 	public "github.com/drand/drand/v2/common/chain"
+	"github.com/drand/drand/v2/common/log"
 	"github.com/drand/drand/v2/crypto"
 	"github.com/drand/drand/v2/internal/chain"
 	"github.com/drand/drand/v2/internal/chain/beacon"
@@ -356,6 +357,10 @@ type mockClient struct {
 	calls   []string
 	upTo    uint64
 	upToReq bool               // the target of each inner Sync is the FromRound of its request (CorrectPastBeacons)
+	runMode bool               // Run owns the context: a stall just waits
+	stalled atomic.Int64       // streams that reached their stall with everything sent dealt with
+	active  atomic.Int64       // streams opened and neither finished nor parked in their stall
+	nOpen   atomic.Int64       // SyncChain calls so far
 	stored  *atomic.Int64      // successful base-store Puts of the node under test
 	cancel  context.CancelFunc // cancels the context of the running Sync (what Run does to a stuck sync)
 	wg      sync.WaitGroup
@@ -392,16 +397,24 @@ func (m *mockClient) SyncChain(ctx context.Context, p net.Peer, in *drand.SyncRe
 			script = ss[len(ss)-1]
 		}
 	}
+	m.nOpen.Add(1)
 	if script == "err" {
 		return nil, errors.New("verif: scripted dial error")
 	}
 	items := m.t.resolveScript(script, from)
+	m.active.Add(1)
 	ch := make(chan *drand.BeaconPacket) // unbuffered: a send completes when tryNode is in its select
 	start := m.stored.Load()
 	m.wg.Add(1)
 	go func() {
 		defer m.wg.Done()
 		defer close(ch)
+		parked := false
+		defer func() {
+			if !parked {
+				m.active.Add(-1)
+			}
+		}()
 		sent := int64(0)
 		var lastSent *drand.BeaconPacket
 		for _, it := range items {
@@ -418,7 +431,13 @@ func (m *mockClient) SyncChain(ctx context.Context, p net.Peer, in *drand.SyncRe
 						return
 					}
 					if m.stored.Load()-start >= sent && !(lastSent != nil && lastSent.Round == upTo) {
-						cancel()
+						if m.runMode {
+							m.stalled.Add(1)
+							parked = true
+							m.active.Add(-1)
+						} else {
+							cancel()
+						}
 						<-ctx.Done()
 						return
 					}
@@ -485,6 +504,10 @@ func (s *syncSUT) close() {
 var truthCache = map[string]*truth{}
 
 func newSyncSUT(chained, follow bool, backend string, n, head int) *syncSUT {
+	return newSyncSUTWith(chained, follow, backend, n, head, nil, nil)
+}
+
+func newSyncSUTWith(chained, follow bool, backend string, n, head int, clk clock.Clock, lg log.Logger) *syncSUT {
 	key := fmt.Sprintf("%v/%d", chained, n)
 	t := truthCache[key]
 	if t == nil {
@@ -533,16 +556,28 @@ func newSyncSUT(chained, follow bool, backend string, n, head int) *syncSUT {
 	cbs := beacon.NewCallbackStore(quietLogger(), under)
 	s.top = cbs
 	s.cl = &mockClient{t: t, stored: &s.base.n}
-	info := &public.Info{PublicKey: t.pub, ID: syncBeaconID, Period: time.Second, Scheme: t.sch.Name,
+	period := time.Second
+	runMode := clk != nil
+	if runMode {
+		period = runPeriod * time.Second
+		s.cl.runMode = true
+	} else {
+		clk, lg = clock.NewRealClock(), quietLogger()
+	}
+	info := &public.Info{PublicKey: t.pub, ID: syncBeaconID, Period: period, Scheme: t.sch.Name,
 		GenesisTime: time.Now().Unix() - 1_000_000, GenesisSeed: t.seed}
 	mctx, stop := context.WithCancel(context.Background())
 	s.stop = stop
-	sm, err := beacon.NewSyncManager(mctx, &beacon.SyncConfig{Log: quietLogger(), Client: s.cl, Clock: clock.NewRealClock(),
+	sm, err := beacon.NewSyncManager(mctx, &beacon.SyncConfig{Log: lg, Client: s.cl, Clock: clk,
 		Store: cbs, BoltdbStore: s.base, Info: info, NodeAddr: "self"})
 	if err != nil {
 		panic(err)
 	}
 	s.sm = sm
+	if runMode {
+		go sm.Run() // Run drains newSyncedBeacon itself
+		return s
+	}
 	// Run (not started here) is what drains newSyncedBeacon in the daemon
 	go func() {
 		ch := sm.VerifSyncedChan()
@@ -702,6 +737,75 @@ func symBytes(s string) []byte {
 	return b
 }
 
+const runPeriod = 3
+
+var (
+	runLog    *logBuf
+	runClock  *clock.FakeClock
+	runStarts int
+	runMark   int
+	runBase   int
+)
+
+// logBuf captures the JSON log lines of the sync manager (zapcore.WriteSyncer).
+type logBuf struct {
+	mu    sync.Mutex
+	lines []string
+}
+
+func (b *logBuf) Write(p []byte) (int, error) {
+	b.mu.Lock()
+	for _, l := range strings.Split(strings.TrimRight(string(p), "\n"), "\n") {
+		b.lines = append(b.lines, l)
+	}
+	b.mu.Unlock()
+	return len(p), nil
+}
+func (b *logBuf) Sync() error { return nil }
+func (b *logBuf) len() int {
+	b.mu.Lock()
+	defer b.mu.Unlock()
+	return len(b.lines)
+}
+func (b *logBuf) slice(i, j int) []string {
+	b.mu.Lock()
+	defer b.mu.Unlock()
+	return append([]string{}, b.lines[i:j]...)
+}
+func (b *logBuf) waitFor(from int, pred func(string) bool, d time.Duration) int {
+	deadline := time.Now().Add(d)
+	for time.Now().Before(deadline) {
+		b.mu.Lock()
+		for i := from; i < len(b.lines); i++ {
+			if pred(b.lines[i]) {
+				b.mu.Unlock()
+				return i
+			}
+		}
+		b.mu.Unlock()
+		time.Sleep(200 * time.Microsecond)
+	}
+	return -1
+}
+func (b *logBuf) waitCount(pred func(string) bool, n int, d time.Duration) bool {
+	deadline := time.Now().Add(d)
+	for time.Now().Before(deadline) {
+		c := 0
+		b.mu.Lock()
+		for _, l := range b.lines {
+			if pred(l) {
+				c++
+			}
+		}
+		b.mu.Unlock()
+		if c >= n {
+			return true
+		}
+		time.Sleep(200 * time.Microsecond)
+	}
+	return false
+}
+
 func syncEngine(args []string, in *bufio.Scanner, out *bufio.Writer) {
 	if pf := os.Getenv("VERIF_PROF"); pf != "" {
 		if f, err := os.Create(pf); err == nil {
@@ -781,6 +885,78 @@ func syncEngine(args []string, in *bufio.Scanner, out *bufio.Writer) {
 					res = fmt.Sprintf("errors:%d", k)
 				}
 				return s.report(res, ctx.Err() != nil)
+			case "runinit": // runinit <chained> <head>: the same node with `go Run()`, a fake clock and a captured log
+				if s != nil {
+					s.close()
+					s = nil
+				}
+				head, _ := strconv.Atoi(f[2])
+				runLog = &logBuf{}
+				runClock = clock.NewFakeClockAt(time.Now())
+				s = newSyncSUTWith(f[1] == "1", false, "trimmed", 34, head, runClock, log.New(runLog, log.DebugLevel, true))
+				runStarts, runMark = 0, 0
+				return fmt.Sprintf("ok factor=%d period=%d", beacon.VerifSyncExpiryFactor(), runPeriod)
+			case "adv":
+				sec, _ := strconv.Atoi(f[1])
+				runClock.Advance(time.Duration(sec) * time.Second)
+				return "ok"
+			case "settle": // wait until every opened stream ended or is parked in its stall and Run consumed the beacons reported
+				deadline := time.Now().Add(5 * time.Second)
+				for time.Now().Before(deadline) {
+					if s.cl.active.Load() == 0 && len(s.sm.VerifSyncedChan()) == 0 {
+						l, _ := s.top.Last(s.ctx)
+						return fmt.Sprintf("ok stored=%d head=%d", s.base.n.Load(), l.Round)
+					}
+					time.Sleep(200 * time.Microsecond)
+				}
+				return "hang"
+			case "req": // req <upTo> <end|go> peers…
+				upTo := parseU(f[1])
+				addrs, scripts := parsePeers(f[3:])
+				s.cl.reset(scripts, upTo, func() {})
+				s.cl.runMode = true
+				mark := runLog.len()
+				opened := s.cl.nOpen.Load()
+				s.sm.SendSyncRequest(context.Background(), upTo, peersOf(addrs))
+				s.sm.SendSyncRequest(context.Background(), 1, nil) // sentinel: always "already filled", changes nothing
+				idx := runLog.waitFor(mark, func(l string) bool {
+					return strings.Contains(l, "skipping_request") && strings.Contains(l, `"request":1}`) || strings.Contains(l, `"request":1,`) && strings.Contains(l, "skipping_request")
+				}, 5*time.Second)
+				if idx < 0 {
+					return "hang"
+				}
+				dec := "ignore"
+				for _, l := range runLog.slice(mark, idx) {
+					if strings.Contains(l, "skipping_request") {
+						dec = "filled"
+					}
+					if strings.Contains(l, "canceling old sync as it took long") {
+						dec = "start"
+					}
+				}
+				ended := ""
+				if dec == "start" {
+					runStarts++
+					// the new Sync goroutine has asked its first peer
+					dl := time.Now().Add(5 * time.Second)
+					for s.cl.nOpen.Load() == opened && time.Now().Before(dl) {
+						time.Sleep(100 * time.Microsecond)
+					}
+					if s.cl.nOpen.Load() == opened {
+						return "hang-start"
+					}
+					if f[2] == "end" {
+						n := runStarts
+						ok := runLog.waitCount(func(l string) bool {
+							return strings.Contains(l, "sync was unsuccessful") || strings.Contains(l, "sync completed successfully")
+						}, n, 5*time.Second)
+						if !ok {
+							return "hang-end"
+						}
+						ended = " ended"
+					}
+				}
+				return dec + ended
 			case "check":
 				l, err := s.sm.CheckPastBeacons(s.ctx, parseU(f[1]), nil)
 				if err != nil {
